@@ -2,8 +2,8 @@
 from ..rules import folds
 from .common import declare
 
-RULES = ['BATCH-PURE', 'INITIAL-NEUTRAL', 'FOLD-DERIVE', 'AGG-TABLE', 'REDUCER-NAME', 'STATE-PLUMB', 'FOLD-PURE', 'OPERATOR-TABLE', 'MIRROR']
-FLOORS = {'FOLD-DERIVE': 14, 'AGG-TABLE': 19, 'REDUCER-NAME': 25, 'STATE-PLUMB': 10, 'FOLD-PURE': 50, 'OPERATOR-TABLE': 30}
+RULES = ['BATCH-PURE', 'INITIAL-NEUTRAL', 'FOLD-DERIVE', 'AGG-TABLE', 'REDUCER-NAME', 'STATE-PLUMB', 'FOLD-PURE', 'OPERATOR-TABLE', 'MIRROR', 'ACC-CONTRACT']
+FLOORS = {'FOLD-DERIVE': 14, 'AGG-TABLE': 19, 'REDUCER-NAME': 25, 'STATE-PLUMB': 10, 'FOLD-PURE': 50, 'OPERATOR-TABLE': 30, 'ACC-CONTRACT': 2}
 
 META = {
     'level': "Static analysis of the fold structure only: every state component returned by Aggregation.on_new and by the "
@@ -32,6 +32,9 @@ def run(ctx, R):
     R.run(folds.check_operator_table, ctx, R)
     # sibling cross-check: an accrual step that is not the inverse of its decay step contradicts it - one of them is wrong
     R.run(folds.check_mirror, ctx, R)
+    # every aggregation is folded by core.accumulate: its state must be committed before the result is delivered (a consumer
+    # that raises or re-enters the stream must not make the batch it was told about disappear from the running result)
+    R.run(folds.check_acc_contract, ctx, R)
 
 
 META['level'] += (" Elementwise expressions: each of the operator methods of OperatorMixin maps to the operator function and operand "
@@ -39,3 +42,4 @@ META['level'] += (" Elementwise expressions: each of the operator methods of Ope
                   "their recorded positions (OPERATOR-TABLE).")
 META['technique'] += " + exhaustive table check of the operator methods against the Python data model (OPERATOR-TABLE)"
 META['level'] += " Also: per-batch functions do not mutate the batch they are given (BATCH-PURE) and initial() performs no arithmetic on the first batch's values (INITIAL-NEUTRAL)."
+META['level'] += ' ACC-CONTRACT: the accumulate node that folds every aggregation stores its new state before it delivers the result.'
